@@ -66,6 +66,11 @@ def _specialise(ctx, stmts: list, kind: str) -> list:
                     return copy.deepcopy(env[n.id])
                 return n
 
+            def visit_IfExp(self, n):
+                self.generic_visit(n)
+                d = kind_test(n.test)
+                return n.body if d is True else n.orelse if d is False else n
+
         return T().visit(copy.deepcopy(e))
 
     def aliasable(v) -> bool:
@@ -228,26 +233,30 @@ def _kinds_pushed_by(ctx, dotted: str, seen=None) -> set:
     return out
 
 
-def _first_literal(arm: list) -> str:
-    """first string literal appended to `parts` (or used in a format) in an emitter arm"""
+def _first_template(arm: list) -> list:
+    """template (literal pieces and holes, see core.strtpl) of the first text an emitter arm appends to `parts`"""
+    from ..core import strtpl
     for st in arm:
         for n in ast.walk(st):
             if isinstance(n, ast.Call) and unparse(n.func) == "parts.append" and n.args:
                 a = n.args[0]
-                if isinstance(a, ast.Constant) and isinstance(a.value, str):
-                    return a.value
-                if isinstance(a, ast.Call) and isinstance(a.func, ast.Attribute) and a.func.attr == "format" and isinstance(a.func.value, ast.Constant):
-                    return a.func.value.value
                 if isinstance(a, ast.Name):
                     # e.g. first_part = "{{" + recurse(...)
-                    for s2 in arm:
-                        for m in ast.walk(s2):
-                            if isinstance(m, ast.Assign) and unparse(m.targets[0]) == a.id:
-                                for c in ast.walk(m.value):
-                                    if isinstance(c, ast.Constant) and isinstance(c.value, str):
-                                        return c.value
-                raise AnalysisError("to_wikitext: the first text an emitter writes is `{}`, which is not a literal (inconclusive)".format(unparse(a)[:40]))
-    return ""
+                    vals = [m.value for s2 in arm for m in ast.walk(s2) if isinstance(m, ast.Assign) and unparse(m.targets[0]) == a.id]
+                    if vals:
+                        a = vals[0]
+                return strtpl.template(a)
+    return []
+
+
+def _first_literal(arm: list) -> str:
+    """the literal text an emitter arm starts its output with"""
+    tpl = _first_template(arm)
+    if not tpl:
+        return ""
+    if isinstance(tpl[0], str):
+        return tpl[0]
+    raise AnalysisError("to_wikitext: the first text an emitter writes is `{}`, which is not a literal (inconclusive)".format(unparse(tpl[0])[:40]))
 
 
 def rule_r2(ctx) -> RuleResult:
@@ -284,8 +293,7 @@ def rule_r2(ctx) -> RuleResult:
         if kind not in arms:
             continue  # R1 reports the missing emitter
         lit = _first_literal(arms[kind])
-        core = lit.replace("{{|", "{|").replace("{{", "\x00").replace("}}", "\x01") if kind in ("TABLE",) else lit
-        stripped = core.strip("\n")
+        stripped = lit.strip("\n")
         # leading delimiter: longest opener that the literal starts with
         cand = [d for d in opens if stripped.startswith(d)]
         if kind in ("TEMPLATE", "TEMPLATE_ARG", "PARSER_FN"):
@@ -306,8 +314,11 @@ def rule_r2(ctx) -> RuleResult:
         rr.bad(Finding("C19.R2", NE, RECURSE, "TABLE closing literal", "tables are not closed with the `|}` token", 0))
     # argument joiners
     for kind in ("LINK", "TEMPLATE", "TEMPLATE_ARG", "PARSER_FN"):
-        src = "".join(unparse(s) for s in arms.get(kind, []))
-        if "'|'.join(map(recurse, node.largs" in src:
+        joins = [c for s_ in arms.get(kind, []) for c in ast.walk(s_)
+                 if isinstance(c, ast.Call) and isinstance(c.func, ast.Attribute) and c.func.attr == "join"
+                 and isinstance(c.func.value, ast.Constant) and c.func.value.value == "|" and c.args
+                 and "node.largs" in unparse(c.args[0]) and "recurse" in unparse(c.args[0])]
+        if joins:
             rr.ok(RECURSE, kind + " arguments joined by '|'")
         else:
             rr.bad(Finding("C19.R2", NE, RECURSE, kind + " argument joiner", "arguments are not re-emitted joined by `|`", arms[kind][0].lineno if kind in arms else 0))
@@ -320,8 +331,9 @@ def rule_r2(ctx) -> RuleResult:
         rr.bad(Finding("C19.R2", NE, "node_expand.KIND_TO_LEVEL", repr(sorted((str(k), v) for k, v in k2l.items())),
                        "heading markers written by the emitter differ from the markers the parser maps to those kinds", 0))
     if level_arm is not None:
-        lit = _first_literal(level_arm)
-        if re.fullmatch(r"\n\{\} \{\} \{\}\n", lit):
+        tpl = _first_template(level_arm)
+        lit = "".join(p_ if isinstance(p_, str) else "{}" for p_ in tpl)
+        if len(tpl) == 7 and [p_ for p_ in tpl if isinstance(p_, str)] == ["\n", " ", " ", "\n"] and unparse(tpl[1]) == unparse(tpl[5]):
             rr.ok(RECURSE, "heading emitted as newline, marker, title, marker, newline")
         else:
             rr.bad(Finding("C19.R2", NE, RECURSE, "heading literal {!r}".format(lit), "a heading is not emitted on its own line between equal markers", level_arm[0].lineno))
@@ -361,11 +373,37 @@ def rule_r3(ctx) -> RuleResult:
                            "two sibling strings (with an inline node between them) are emitted verbatim and re-parse as a link".format(target),
                            str_if[0].lineno))
     ta = ctx.fn("node_expand.to_attrs")
-    src = unparse(ta)
-    if "'{}=\"{}\"'.format(k, v)" in src and "quote_plus" in src:
-        rr.ok("node_expand.to_attrs", 'non-empty values are written as name="quoted value"')
-    else:
-        rr.bad(Finding("C19.R3", NE, "node_expand.to_attrs", "'{}=\"{}\"'.format(k, v)", "attribute values are not always quoted", ta.lineno))
+    from ..core import strtpl
+    valued = []
+    for n in walk_no_nested(ta):
+        if isinstance(n, ast.Call) and isinstance(n.func, ast.Attribute) and n.func.attr in ("append", "extend") and n.args:
+            tpl = strtpl.template(n.args[0])
+            hs = strtpl.holes(tpl)
+            if any(before.endswith(("=", '="', "='")) for before, _, _ in hs):
+                valued.append((n, hs))
+    if not valued:
+        raise AnalysisError("to_attrs: the statement that emits name=value was not recognised")
+    for n, hs in valued:
+        for before, hole, after in hs:
+            if not before.endswith(("=", '="', "='")):
+                continue
+            q = before[-1]
+            quoted = q in "\"'" and after.startswith(q)
+            escaped = False
+            if isinstance(hole, ast.Call) and unparse(hole.func).endswith(("quote_plus", "quote")):
+                escaped = True
+            elif isinstance(hole, ast.Name):
+                vals = [a_.value for a_ in walk_no_nested(ta) if isinstance(a_, ast.Assign) and a_.lineno <= n.lineno
+                        and any(isinstance(t, ast.Name) and t.id == hole.id for t in a_.targets)]
+                escaped = bool(vals) and isinstance(vals[-1], ast.Call) and unparse(vals[-1].func).endswith(("quote_plus", "quote"))
+            if quoted and escaped:
+                rr.ok("node_expand.to_attrs", 'non-empty values are written as name="quoted value"')
+            elif not quoted:
+                rr.bad(Finding("C19.R3", NE, "node_expand.to_attrs", unparse(n)[:80], "attribute values are not always quoted", n.lineno))
+            else:
+                rr.bad(Finding("C19.R3", NE, "node_expand.to_attrs", unparse(n)[:80],
+                               "attribute values are written between quotes without percent-encoding: a value containing the quote "
+                               "character ends the attribute early", n.lineno))
     return rr
 
 
